@@ -110,13 +110,16 @@ def comp_decl(name, cls, dims, mods):
     return " %s %s%s%s;" % (cls.name, name, d, "(" + ", ".join(items) + ")" if items else "")
 
 
-def cls_text(c, eqs=()):
+def cls_text(c, eqs=(), ieqs=()):
     lines = ["model " + c.name]
     for kind, x in c.order:
         lines.append(field_decl(x) if kind == "f" else comp_decl(*x))
     if eqs:
         lines.append("equation")
         lines += [" " + e for e in eqs]
+    if ieqs:
+        lines.append("initial equation")
+        lines += [" " + e for e in ieqs]
     lines.append("end %s;" % c.name)
     return "\n".join(lines)
 
@@ -348,12 +351,21 @@ def gen_program(rng, stream="main"):
 
     decls = flatten_decls(top)
     eqs, states = gen_equations(rng, decls, feats)
-    text = "\n".join([cls_text(c) for c in classes + mids] + [cls_text(top, [e["text"] for e in eqs])]) + "\n"
-    return {"text": text, "decls": decls, "eqs": eqs, "stream": stream, "features": sorted(feats), "states": sorted(states)}
+    ieqs = []
+    if rng.random() < 0.4:
+        # initial equations: core fragment only, no new derivatives (der() may only name existing states)
+        cand, _ = gen_equations(rng, decls, set(), initial=True)
+        ieqs = [e for e in cand if e["ast"] is not None and "der(" not in e["text"]][:3]
+        if ieqs:
+            feats.add("initial-equations")
+    text = "\n".join([cls_text(c) for c in classes + mids]
+                     + [cls_text(top, [e["text"] for e in eqs], [e["text"] for e in ieqs])]) + "\n"
+    return {"text": text, "decls": decls, "eqs": eqs, "ieqs": ieqs, "stream": stream, "features": sorted(feats),
+            "states": sorted(states)}
 
 
 # ------------------------------------------------------------------------------------------
-def gen_equations(rng, decls, feats):
+def gen_equations(rng, decls, feats, initial=False):
     real = [d for d in decls if d["type"] == "Real" and len(iter_dims(d["levels"])) <= 2]
     by_sig = {}
     for d in real:
@@ -458,7 +470,7 @@ def gen_equations(rng, decls, feats):
     top1 = [d for d in real if len(d["parts"]) == 1 and len(iter_dims(d["levels"])) == 1]
     top2 = [d for d in real if len(d["parts"]) == 1 and len(iter_dims(d["levels"])) == 2]
     nest2 = [d for d in real if len(d["parts"]) == 2 and len(d["levels"][0]) == 1 and len(d["levels"][1]) == 1]
-    for _ in range(rng.choice([0, 1, 1, 2])):
+    for _ in range(0 if initial else rng.choice([0, 1, 1, 2])):
         r = rng.random()
         if r < 0.3 and top1:
             x = rng.choice([d for d in top1])
